@@ -116,7 +116,16 @@ func generate(o *Options) *runResult {
 			}
 		}
 	}
-	if len(targets) == 0 && len(lemmas) == 0 {
+	var sweeps []*Sweep
+	for _, sw := range specs.Sweeps {
+		if hasProp(sw.Props, o.Prop) && (o.Only == "" || strings.Contains("sweep "+sw.Kind, o.Only)) {
+			sweeps = append(sweeps, sw)
+			for _, pk := range sw.Pkgs {
+				pkgSet[pk] = true
+			}
+		}
+	}
+	if len(targets) == 0 && len(lemmas) == 0 && len(sweeps) == 0 {
 		res.loadErr = fmt.Errorf("no contracts tagged %s found under %s (contract files: %d)", o.Prop, o.Repo, len(files))
 		return res
 	}
@@ -140,6 +149,11 @@ func generate(o *Options) *runResult {
 		u := prog.NewUnit(fn, c)
 		u.loadAxioms()
 		u.Run()
+		res.units = append(res.units, u)
+		res.obls = append(res.obls, u.obls...)
+	}
+	for _, sw := range sweeps {
+		u := prog.runSweep(sw)
 		res.units = append(res.units, u)
 		res.obls = append(res.obls, u.obls...)
 	}
